@@ -7,3 +7,6 @@ def run(ctx):
     # partially defined time / attribute vectors (undefined entries must stay undefined)
     streams_hdr.run(ctx, n_write=(600 if ctx.thorough else 150), n_mut=(1000 if ctx.thorough else 200), partial=True,
                     fail_prefix="C17")
+    # folders without sub-streams (sessions that add only directories)
+    streams_hdr.run(ctx, n_write=(400 if ctx.thorough else 100), n_mut=(400 if ctx.thorough else 100), empty_folders=True,
+                    fail_prefix="C17")
